@@ -337,6 +337,19 @@ def expand_fn(repo, d, log):
             e_.optional = optional
     tags = tags_box[0]
     ret_name = ret_box[0]
+    # X4 (automatic): `<slice>.iter().any|all|find|rposition(closure)` is routed through the trusted wrappers
+    # crate::slice_any / slice_all / slice_find / slice_rposition (vstd cannot give these overridden methods a specification)
+    if "nowrap" not in d["flags"] and not stub:
+        for c in it.get("combinators", []):
+            if c["method"] in ("any", "all", "find", "rposition"):
+                r0, r1 = c["recv"]
+                recv = data[r0:r1].decode()
+                m_ = re.match(r"^(.*?)\s*\.\s*iter\(\)$", recv, re.S)
+                if not m_:
+                    continue
+                base = m_.group(1)
+                cl0 = c["closure"][0]
+                edits.append(Edit(r0, cl0, f"crate::slice_{c['method']}({base}, ", "X4:auto-wrapper", d["tline"]))
     # attributes (X1)
     for a in it["attrs"]:
         if a["name"] in drop:
